@@ -153,7 +153,13 @@ CompileBad(hdr, ops, jc, J) ==
   ELSE IF ~\E c \in CtrlConnSet(ops, J) : c[2] = END THEN "no-exit"
   ELSE IF Untypable(ops, J) # {} THEN "untyped-passthrough"
   ELSE IF o.m = "all" /\ Cyclic(ops, J) THEN "cycle-in-all-predecessor-mode"
-  ELSE IF o.m = "all" /\ o.x = "maxsteps" THEN "invalid-option-combination"
+  \* invalid option combinations: a step limit is refused wherever the EFFECTIVE mode is all-predecessor -- by option on a graph, by
+  \* component kind on a workflow -- at top level as well as for a nested graph compiled with its node's options (sub op: m =
+  \* "" graph | "gms" graph + step limit | "gall" all-predecessor | "gallms" both | "wf" workflow | "wfms" workflow + step limit);
+  \* a workflow (like a chain) does not take the trigger-mode option
+  ELSE IF (o.m = "all" \/ hdr.fe = "wf") /\ o.x = "maxsteps" THEN "invalid-option-combination"
+  ELSE IF hdr.fe = "wf" /\ o.m = "all" THEN "invalid-option-combination"
+  ELSE IF \E j \in J : ops[j].op = "sub" /\ ops[j].m \in {"gallms", "wfms"} THEN "invalid-option-combination"
   ELSE ""
 \* first reason why the construction compiled by call jc is ill-formed
 IllFormedWhy(hdr, ops, jc, J) ==
